@@ -213,6 +213,8 @@ def random_history(rng, kind, nvals, nops, zero_tok=0, two=True, maxlen=40, bad=
             dst = rng.choice([1, 2, 3])
             if dst in kinds and dst != o and (kinds[dst] == "Tuple") == (kd == "Tuple"):
                 L.append("assign %d %d" % (dst, o)); seqs[dst] = list(q)
+            elif dst == o and rng.random() < 0.5:
+                L.append("assign %d %d" % (o, o))              # assigned from itself: as before
             elif dst not in kinds:
                 L.append("copy %d %d" % (dst, o)); kinds[dst] = kd; seqs[dst] = list(q)
         elif len(kinds) > 1:
